@@ -254,7 +254,7 @@ struct outcome {
 };
 
 static int g_barrier_ms = 60;
-static int g_final_ms = 4000;
+static int g_final_ms = 12000;
 
 // drain whatever the server already sent; returns false when the peer closed
 static bool drain(int fd,outcome &o)
